@@ -184,6 +184,41 @@ def normalize(node):
     return out
 
 
+def alpha_rename(node):
+    """Copy of the tree in which a name bound more than once keeps its spelling for the first binding (source order) and is
+    spelled `name#id` for the others, in the binding and in every use (uses are resolved by id in HIR). Macro hygiene can
+    give distinct locals one spelling (`arg` in format_ident!); an environment keyed by spelling would conflate them."""
+    first, ren = {}, {}
+
+    def scan(n):
+        if isinstance(n, list):
+            for x in n:
+                scan(x)
+        elif isinstance(n, dict):
+            if n.get("k") == "bind" and "id" in n and "name" in n:
+                if n["name"] not in first:
+                    first[n["name"]] = n["id"]
+                elif first[n["name"]] != n["id"]:
+                    ren[n["id"]] = "%s#%s" % (n["name"], n["id"])
+            for k, v in n.items():
+                if isinstance(v, (dict, list)) and k not in ("lit", "mac", "substs", "adj"):
+                    scan(v)
+    scan(node)
+    if not ren:
+        return node
+
+    def go(n):
+        if isinstance(n, list):
+            return [go(x) for x in n]
+        if not isinstance(n, dict):
+            return n
+        out = {k: (go(v) if isinstance(v, (dict, list)) and k not in ("lit", "mac", "substs", "adj") else v) for k, v in n.items()}
+        if out.get("k") in ("bind", "local") and out.get("id") in ren:
+            out["name"] = ren[out["id"]]
+        return out
+    return go(node)
+
+
 def place(e):
     """Textual access path of a place expression ('self.counter', 'value', 'self.values'), or None."""
     e = peel_ref(e)
